@@ -36,13 +36,14 @@ var shims = map[string][2]string{
 }
 
 func main() {
-	var rewrites, replaces multi
+	var rewrites, replaces, extracts multi
 	repo := flag.String("repo", "/repo", "repository root")
 	hooks := flag.String("hooks", "/verif/hooks", "hooks root")
 	out := flag.String("out", "", "output dir (overlay.json + rewritten files)")
 	gostmts := flag.Bool("go", true, "rewrite go statements in rewritten packages")
 	flag.Var(&rewrites, "rewrite", "pkgdir[=import,import] (default imports: sync,sync/atomic)")
 	flag.Var(&replaces, "replace", "relpath=file")
+	flag.Var(&extracts, "extract", "relfile:Func:caseIndex:NewName:prelude-source — copy the body of the caseIndex-th clause of the first for/select loop of Func into a new function NewName (same receiver) preceded by the given prelude statements")
 	flag.Parse()
 	if *out == "" {
 		fmt.Fprintln(os.Stderr, "need -out")
@@ -116,7 +117,14 @@ func main() {
 			if r, ok := repl[src]; ok {
 				from = r // mutant / candidate fix replaces this file: rewrite the replacement
 			}
-			b, changed, stats, err := rewriteFile(from, want, *gostmts)
+			var ex []string
+			for _, x := range extracts {
+				f0, rest, _ := strings.Cut(x, ":")
+				if filepath.Join(*repo, f0) == src {
+					ex = append(ex, rest)
+				}
+			}
+			b, changed, stats, err := rewriteFile(from, want, *gostmts, ex)
 			if err != nil {
 				fmt.Fprintf(os.Stderr, "overlay: %s: %v\n", src, err)
 				os.Exit(2)
@@ -145,7 +153,7 @@ func main() {
 	fmt.Printf("overlay: %d files (%d rewritten)\n", len(repl), len(report))
 }
 
-func rewriteFile(path string, want map[string]bool, gostmts bool) ([]byte, bool, map[string]int, error) {
+func rewriteFile(path string, want map[string]bool, gostmts bool, extracts []string) ([]byte, bool, map[string]int, error) {
 	fset := token.NewFileSet()
 	f, err := parser.ParseFile(fset, path, nil, parser.ParseComments)
 	if err != nil {
@@ -153,6 +161,16 @@ func rewriteFile(path string, want map[string]bool, gostmts bool) ([]byte, bool,
 	}
 	stats := map[string]int{}
 	changed := false
+	var extraSrc []string
+	for _, x := range extracts {
+		src, err := extractCase(fset, f, x)
+		if err != nil {
+			return nil, false, nil, fmt.Errorf("extract %q: %v", x, err)
+		}
+		extraSrc = append(extraSrc, src)
+		stats["extract"]++
+		changed = true
+	}
 	for _, im := range f.Imports {
 		p, _ := strconv.Unquote(im.Path.Value)
 		if sh, ok := shims[p]; ok && want[p] {
@@ -256,5 +274,108 @@ func rewriteFile(path string, want map[string]bool, gostmts bool) ([]byte, bool,
 	if err := (&printer.Config{Mode: printer.UseSpaces | printer.TabIndent, Tabwidth: 8}).Fprint(&buf, fset, f); err != nil {
 		return nil, false, nil, err
 	}
+	for _, x := range extraSrc {
+		buf.WriteString("\n\n" + x + "\n")
+	}
 	return buf.Bytes(), true, stats, nil
+}
+
+// extractCase builds, as source text, a new function holding the body of one select clause of the
+// first `for { select {…} }` loop of a function — the loop's case body made callable, always generated
+// from the current source so it cannot drift from it. spec = Func:caseIndex:NewName:prelude.
+// Unlabelled continue/break that target the loop/select become return.
+func extractCase(fset *token.FileSet, f *ast.File, spec string) (string, error) {
+	parts := strings.SplitN(spec, ":", 4)
+	if len(parts) < 3 {
+		return "", fmt.Errorf("bad spec")
+	}
+	fn, newName, prelude := parts[0], parts[2], ""
+	idx, err := strconv.Atoi(parts[1])
+	if err != nil {
+		return "", err
+	}
+	if len(parts) == 4 {
+		prelude = parts[3]
+	}
+	for _, d := range f.Decls {
+		fd, ok := d.(*ast.FuncDecl)
+		if !ok || fd.Name.Name != fn || fd.Body == nil {
+			continue
+		}
+		var sel *ast.SelectStmt
+		ast.Inspect(fd.Body, func(n ast.Node) bool {
+			if sel != nil {
+				return false
+			}
+			if fs, ok := n.(*ast.ForStmt); ok {
+				for _, st := range fs.Body.List {
+					if s2, ok := st.(*ast.SelectStmt); ok {
+						sel = s2
+						return false
+					}
+				}
+			}
+			return true
+		})
+		if sel == nil {
+			return "", fmt.Errorf("no for/select loop in %s", fn)
+		}
+		if idx >= len(sel.Body.List) {
+			return "", fmt.Errorf("case index out of range")
+		}
+		cc := sel.Body.List[idx].(*ast.CommClause)
+		// rewrite loop-level continue/break into return (not inside nested for/switch/select/func)
+		var fix func(list []ast.Stmt)
+		var fixStmt func(st ast.Stmt) ast.Stmt
+		fixStmt = func(st ast.Stmt) ast.Stmt {
+			switch x := st.(type) {
+			case *ast.BranchStmt:
+				if x.Label == nil && (x.Tok == token.CONTINUE || x.Tok == token.BREAK) {
+					return &ast.ReturnStmt{}
+				}
+			case *ast.BlockStmt:
+				fix(x.List)
+			case *ast.IfStmt:
+				fix(x.Body.List)
+				if x.Else != nil {
+					x.Else = fixStmt(x.Else)
+				}
+			case *ast.LabeledStmt:
+				x.Stmt = fixStmt(x.Stmt)
+			}
+			return st
+		}
+		fix = func(list []ast.Stmt) {
+			for i := range list {
+				list[i] = fixStmt(list[i])
+			}
+		}
+		body := append([]ast.Stmt{}, cc.Body...)
+		fix(body)
+		var buf bytes.Buffer
+		recv := ""
+		if fd.Recv != nil && len(fd.Recv.List) == 1 {
+			var rb bytes.Buffer
+			printer.Fprint(&rb, fset, fd.Recv.List[0].Type)
+			name := "_"
+			if len(fd.Recv.List[0].Names) == 1 {
+				name = fd.Recv.List[0].Names[0].Name
+			}
+			recv = "(" + name + " " + rb.String() + ") "
+		}
+		fmt.Fprintf(&buf, "// %s is generated by the verif overlay from the body of select clause %d of %s.\nfunc %s%s() {\n", newName, idx, fn, recv, newName)
+		if prelude != "" {
+			buf.WriteString("\t" + prelude + "\n")
+		}
+		for _, st := range body {
+			var sb bytes.Buffer
+			if err := printer.Fprint(&sb, fset, st); err != nil {
+				return "", err
+			}
+			buf.WriteString("\t" + sb.String() + "\n")
+		}
+		buf.WriteString("}\n")
+		return buf.String(), nil
+	}
+	return "", fmt.Errorf("function %s not found", fn)
 }
